@@ -94,7 +94,12 @@ func (g *G) Scalar() string {
 	default:
 		if g.R.P(30) {
 			// invalid UTF-8 inside a string (still well-formed JSON for Go's scanner)
-			return "\"x\xffy\""
+			if g.R.Bool() {
+				return "\"x\xffy\""
+			}
+			// a run of malformed sequences, possibly at the very end of the string
+			bad := g.R.Pick([]string{"\xff", "\x80", "\xc0\xaf", "\xed\xa0\x80"})
+			return "\"" + g.R.Pick([]string{"", "ab", "x"}) + strings.Repeat(bad, 1+g.R.Intn(30)) + g.R.Pick([]string{"", "", "z"}) + "\""
 		}
 		if g.R.P(20) {
 			return strconv.Quote(strings.Repeat(g.R.Pick([]string{"ab", "<>", "é", "\\"}), 1+g.R.Intn(200)))
